@@ -1399,7 +1399,12 @@ vnacal_t *vnacal_load(const char *pathname,
 		vcp->vc_filename, vls.vls_major_version, vls.vls_minor_version);
 	goto error;
     }
-    yaml_parser_initialize(&parser);
+    if (!yaml_parser_initialize(&parser)) {
+	errno = ENOMEM;
+	_vnacal_error(vcp, VNAERR_SYSTEM, "yaml_parser_initialize: %s: %s",
+		vcp->vc_filename, strerror(errno));
+	goto error;
+    }
     yaml_parser_set_input_file(&parser, fp);
     if (!yaml_parser_load(&parser, &vls.vls_document)) {
 	_vnacal_error(vcp, VNAERR_SYNTAX, "%s (line %ld) error: %s",
